@@ -130,11 +130,14 @@ func objExpect(t tcase) []string {
 		}
 	}
 	exp = append(exp, "true")
+	// the flag counts by its value, not by being written: false / nil / a falsy variable list the public names only
+	exp = append(exp, ks(pub), vs(pub), its(pub), ks(pub), ks(all), ks(pub))
 	return exp
 }
 
 var objAccessors = []string{"keys", "keys(private?: true)", "values", "values(private?: true)", "items", "items(private?: true)", "A", "@{|k, v| [k, v]}", "S",
-	"['a]", "['b]", "['_p]", "['_q]", "['c]", "['zz]", "== <reversed literal>"}
+	"['a]", "['b]", "['_p]", "['_q]", "['c]", "['zz]", "== <reversed literal>",
+	"keys(private?: false)", "values(private?: nil)", "items(private?: false)", "keys(**{private?: false})", "keys(**{private?: true})", "keys(private?: 0 > 1)"}
 
 func objBody(t tcase) string {
 	// reversed literal: same final content written in another order (first-wins already applied)
@@ -145,7 +148,8 @@ func objBody(t tcase) string {
 		rev = append(rev, all[i]+": "+vals[all[i]])
 	}
 	return fmt.Sprintf("o := %s\n[o.keys, o.keys(private?: true), o.values, o.values(private?: true), o.items, o.items(private?: true), o.A, o@{|k, v| [k, v]}, o.S, "+
-		"o['a], o['b], o['_p], o['_q], o['c], o['zz], o == {%s}]", t.Src, strings.Join(rev, ", "))
+		"o['a], o['b], o['_p], o['_q], o['c], o['zz], o == {%s}, "+
+		"o.keys(private?: false), o.values(private?: nil), o.items(private?: false), o.keys(**{private?: false}), o.keys(**{private?: true}), o.keys(private?: 0 > 1)]", t.Src, strings.Join(rev, ", "))
 }
 
 func genObjs(maxPairs int, emit func(tcase)) {
@@ -187,7 +191,9 @@ func genObjs(maxPairs int, emit func(tcase)) {
 // ---------------------------------------------------------------- listed order of names
 
 // names that differ only by a suffix / case / a digit: the listed order is the plain order of the names
-var orderNames = []string{"a", "a!", "a?", "a_", "a1", "aa", "Ab", "b", "_p", "_p!", "_p1", "_Pq"}
+var orderNames = []string{"a", "a!", "a?", "a_", "a1", "aa", "Ab", "b", "_p", "_p!", "_p1", "_Pq",
+	// long names are names like any other (32, 33, 64 and 130 characters; a long private one)
+	"a" + strings.Repeat("bcdefghi", 4)[:31], "a" + strings.Repeat("bcdefghi", 4), "b" + strings.Repeat("x1_", 21), "a" + strings.Repeat("longName", 16) + "z", "_p" + strings.Repeat("q", 40)}
 
 func genObjNames(maxPairs int, emit func(tcase)) {
 	var rec func(pairs [][2]string)
